@@ -74,7 +74,12 @@ func counts(o *Obligation, ct *Contract, prop string) bool {
 	return false
 }
 
+var thoroughTier bool
+
 func relevant(ct *Contract, prop string) bool {
+	if ct.Slow && !thoroughTier {
+		return false
+	}
 	if prop == "" {
 		return true
 	}
@@ -129,6 +134,7 @@ func RunCheck(opts CheckOpts) int {
 	needTwo := false
 	if opts.Tier == "thorough" {
 		timeout, needTwo = 120, true
+		thoroughTier = true
 	}
 	if t := os.Getenv("GOVC_TIMEOUT"); t != "" {
 		fmt.Sscanf(t, "%d", &timeout)
@@ -172,7 +178,7 @@ func RunCheck(opts CheckOpts) int {
 	var schedule func(ct *Contract)
 	schedule = func(ct *Contract) {
 		mu.Lock()
-		if scheduled[ct.Key] || ct.Trusted || ct.Rec {
+		if scheduled[ct.Key] || ct.Trusted || (ct.Rec && !ct.Monotone) {
 			mu.Unlock()
 			return
 		}
@@ -182,7 +188,12 @@ func RunCheck(opts CheckOpts) int {
 		go func() {
 			defer wg.Done()
 			sem <- struct{}{}
-			r := eng.Verify(ct, opts.Prop, findings)
+			var r *UnitResult
+			if ct.Rec {
+				r = eng.VerifyMonotone(ct, opts.Prop)
+			} else {
+				r = eng.Verify(ct, opts.Prop, findings)
+			}
 			<-sem
 			mu.Lock()
 			results[ct.Key] = r
